@@ -7,9 +7,16 @@ package pathlock
 
 // The per-path lock is only meaningful between goroutines; in the sequential executions the verifier considers,
 // Lock never blocks and neither call has an effect visible to the caller (assumed, not verified).
+// Lock typestate per (mutex, path): not re-entrant (a second Lock of a held path blocks for ever), Unlock of a path
+// that is not held panics. The ghost flag is what call-site assertions in the cache refer to.
+//@ spec plHeld(l *Mutex, path string) := gbool("pathheld", uf("plkey", l, path))
 //@ func (l *Mutex) Lock(path string)
 //@   assumed
-//@   requires l != nil
+//@   requires l != nil && !plHeld(l, path)
+//@   modifies gbool("pathheld", uf("plkey", l, path))
+//@   ensures "held" plHeld(l, path)
 //@ func (l *Mutex) Unlock(path string)
 //@   assumed
-//@   requires l != nil
+//@   requires l != nil && plHeld(l, path)
+//@   modifies gbool("pathheld", uf("plkey", l, path))
+//@   ensures "released" !plHeld(l, path)
